@@ -4,7 +4,7 @@ import SyneTune.Model.PollBackend
 Driver for stream `poll` (C02): run with
 `lake env lean --run SyneTune/Drivers/Poll.lean`.
 -/
-open Lean SyneTune SyneTune.Wire
+open Lean SyneTune SyneTune.Backend SyneTune.Wire
 
 def procStr : Proc → String
   | .running => "running"
